@@ -1197,6 +1197,22 @@ func checkCtrlIGenerator(p *Prog, r *Report, ru *Rule) {
 		differently: a directory called funcs[v2], a FIFO in it). */
 		srcOK := true
 		for _, e := range appendedElems(from.Common().Args[len(from.Common().Args)-1]) {
+			/* A field of a (captured) struct value made from the flag. */
+			if fx, isF := stripConv(e, false).(*ssa.Field); isF {
+				if ld, isLd := resolveFree(fx.X).(*ssa.UnOp); isLd && token.MUL == ld.Op {
+					if al, isAl := ld.X.(*ssa.Alloc); isAl {
+						for _, ref := range *al.Referrers() {
+							if fa, isFA := ref.(*ssa.FieldAddr); isFA && fa.Field == fx.Field {
+								for _, r2 := range *fa.Referrers() {
+									if st, isSt := r2.(*ssa.Store); isSt && st.Addr == ssa.Value(fa) {
+										e = st.Val
+									}
+								}
+							}
+						}
+					}
+				}
+			}
 			isFlag := "" != flagNameOf(resolveFree(e))
 			if fc, isCall := resolveFree(e).(*ssa.Call); isCall && strings.HasPrefix(calleeName(fc.Common()), "flag.") {
 				isFlag = true /* the flag's variable, captured */
@@ -1210,7 +1226,24 @@ func checkCtrlIGenerator(p *Prog, r *Report, ru *Rule) {
 			}
 			if !isFlag {
 				if _, isP := stripConv(resolveCell(resolveFree(e)), false).(*ssa.Parameter); !isP {
-					srcOK = false
+					/* Carried in a field or a local on the way. */
+					rs := valueRoots(resolveFree(e), nil)
+					all := 0 != len(rs)
+					for _, x := range rs {
+						switch {
+						case "param" == x.Kind, "const" == x.Kind:
+						case nil != x.V && "" != flagNameOf(x.V):
+						case nil != x.V && func() bool {
+							fc, isCall := x.V.(*ssa.Call)
+							return isCall && strings.HasPrefix(calleeName(fc.Common()), "flag.")
+						}():
+						default:
+							all = false
+						}
+					}
+					if !all {
+						srcOK = false
+					}
 				}
 			}
 		}
